@@ -6,6 +6,7 @@ package adapt
 
 import (
 	"fmt"
+	"runtime"
 	"runtime/debug"
 	"sort"
 	"strconv"
@@ -253,6 +254,27 @@ type mapAd struct {
 	kc   codec[string]
 }
 
+var churnSink [][]uintptr
+
+// CollectAndChurn runs two full collections and then allocates thousands of small pointer-free objects filled with a
+// recognisable pattern, so that memory freed by the collection is handed out again at once: an object the library
+// still uses but no longer keeps reachable for the collector (a pointer parked in a uintptr, a missing KeepAlive)
+// is overwritten and shows up as a pair nobody stored.
+func CollectAndChurn() {
+	runtime.GC()
+	runtime.GC()
+	churnSink = churnSink[:0]
+	for sz := 1; sz <= 8; sz++ {
+		for i := 0; i < 1500; i++ {
+			b := make([]uintptr, sz)
+			for j := range b {
+				b[j] = 0x5a5a5a5a5a5a5a5a
+			}
+			churnSink = append(churnSink, b)
+		}
+	}
+}
+
 // boxVal: the untyped containers (Map, Cache) store the value 0 as a nil interface — the edge the typed twins
 // cannot express; it reads back as 0 (toInt), so the model is unaffected.
 func boxVal(v int) interface{} {
@@ -358,6 +380,8 @@ func (a *mapAd) Do(o *model.Op) (r model.Res) {
 		}
 	case model.HAdvance:
 		vs.NowNS += o.D
+	case model.HGC:
+		CollectAndChurn()
 	default:
 		r.Note = "unsupported"
 	}
@@ -452,6 +476,8 @@ func (a *mapOfAd[K]) Do(o *model.Op) (r model.Res) {
 		}
 	case model.HAdvance:
 		vs.NowNS += o.D
+	case model.HGC:
+		CollectAndChurn()
 	default:
 		r.Note = "unsupported"
 	}
@@ -664,6 +690,8 @@ func (a *cacheAd) Do(o *model.Op) (r model.Res) {
 		}
 	case model.HAdvance:
 		vs.NowNS += o.D
+	case model.HGC:
+		CollectAndChurn()
 	default:
 		r.Note = "unsupported"
 	}
@@ -884,6 +912,8 @@ func (a *cacheOfAd[K]) Do(o *model.Op) (r model.Res) {
 		}
 	case model.HAdvance:
 		vs.NowNS += o.D
+	case model.HGC:
+		CollectAndChurn()
 	default:
 		r.Note = "unsupported"
 	}
